@@ -280,7 +280,7 @@ def write_evidence(mod, pid, tier, seed, merged, violations, stale, replayed, wa
         for s in mod.SUBCHECKS:
             if s.enumerate is not None and s.name in merged["exhaustive_done"]:
                 ex.append({"subcheck": s.name, "space": s.exhaustive, "points": merged["exhaustive_done"][s.name],
-                           "exhaustive": True})
+                           "exhaustive": tier in s.exhaustive_tiers})
         if ex:
             cov["exhaustive_subspaces"] = ex
         for k, v in merged["extra"].items():
